@@ -40,6 +40,8 @@ def accessor(rec, tag, value, type_="Enum", items=None):
         rec.log.append(("write", tag, args[0]))
         a.attrs["value"] = args[0]
     a.attrs["async_set_value"] = Native(aset, "async_set_value")
+    # `acc.value = x` (the blocking writers) is a device write also when x equals the current value
+    a.attrs["__setattr_hook__"] = Native(lambda args, kw: rec.log.append(("write", tag, args[1])) if args[0] == "value" else None, "setattr-hook")
     return a
 
 
@@ -151,6 +153,53 @@ def switch_commands(ctx, repo, rule_idle, rule_one):
                                f"GeckoSwitch.{meth} on a device that is {'on' if is_on else 'off'} (keypad {keypad}, {typ} state) sends {cmds}, expected exactly {want}", loc_,
                                sample={"rule": rule_one, "method": meth, "keypad": keypad, "type": typ, "commands": [str(c) for c in cmds]} if n % 6 == 1 else None)
     ctx.floor(rule_one, "switch command valuations", n, 32)
+
+
+def device_on_states(ctx, repo, rule, T):
+    """what "on" means for the devices that drive the mode: for every label list that the state item of a
+    pump-class or blower-class DEVICES row has in any shipped table, and for Bool items, the device object built by
+    its own constructor on a model spa must read is_on == (the state is not 'OFF' / the flag is set)"""
+    from .facts import class_const
+    DEV = class_const(repo, "GeckoConstants", "DEVICES")
+    CLS = {class_const(repo, "GeckoConstants", "DEVICE_CLASS_PUMP"): "GeckoPump", class_const(repo, "GeckoConstants", "DEVICE_CLASS_BLOWER"): "GeckoBlower"}
+    seen = {}
+    for stem, m in sorted(T.modules.items()):
+        for d, row in DEV.items():
+            if len(row) < 4 or row[3] not in CLS:
+                continue
+            it = m.item(row[2])
+            if it is None:
+                continue
+            labels = next((tuple(a) for a in it.args if isinstance(a, (list, tuple)) and all(isinstance(x, str) for x in a)), None)
+            if it.ctor == "GeckoEnumStructAccessor" and labels:
+                seen.setdefault((CLS[row[3]], "Enum", labels), (d, stem))
+            elif it.ctor == "GeckoBoolStructAccessor":
+                seen.setdefault((CLS[row[3]], "Bool", (False, True)), (d, stem))
+    for cname in CLS.values():
+        seen.setdefault((cname, "Bool", (False, True)), ("<bool item>", "-"))
+    n = 0
+    for (cname, typ, labels), (d, stem) in sorted(seen.items(), key=str):
+        for state in labels:
+            rec = Rec()
+            accs = {"StateKey": accessor(rec, "StateKey", state, typ, list(labels)), "UdDEV": accessor(rec, "UdDEV", "OFF")}
+            fac, _spa = model_facade(rec, accs)
+            interp = Interp(repo, max_depth=12)
+            args = [fac, "DEV", ("Device", 3, "StateKey", "X")] + ([{"demand": "UdDEV", "options": ["OFF", "ON"]}] if cname == "GeckoPump" else [])
+            try:
+                dev = interp.apply(ClassRef(repo.cls(cname)), args, {})
+                interp.steps = 0
+                got = interp.getattr(dev, "is_on")
+            except PyRaise as e:
+                got = f"raises {e.what}"
+            except Undecided as e:
+                raise AnalysisError(f"{cname}.is_on: cannot interpret: {e}")
+            want = (state != "OFF") if typ == "Enum" else bool(state)
+            n += 1
+            ctx.ob(rule, f"{cname}.is_on::{typ}::{'/'.join(map(str, labels))}::{state}", isinstance(got, bool) and got == want,
+                   f"{cname}.is_on reads {got!r} for a device whose state item (labels {list(labels)}, as for {d} in {stem}) reads {state!r}; expected {want}: "
+                   f"a running {'waterfall / pump' if cname == 'GeckoPump' else 'blower'} must count as on when the facade chooses between the active and the idle timing table",
+                   repo.method(cname, "is_on").loc, sample={"rule": rule, "class": cname, "labels": list(labels), "state": state, "is_on": str(got)} if n % 3 == 1 else None)
+    ctx.floor(rule, "device state valuations", n, 12)
 
 
 # ------------------------------------------------------------------------------------------------ C12 scan
